@@ -647,7 +647,9 @@ struct Interp
 			for(const MEv & e : f.batch) slotProtos.insert(e.proto);
 			frames.push_back(f);
 			log << "{";
-			bool r = op.kind == H_PROCESS ? impl->process() : op.kind == H_PROCESSONE ? impl->processOne() : impl->processIf(pk);
+			bool r;
+			if(plan) { struct Un { Un() { --faults().paused; } ~Un() { ++faults().paused; } } un; r = op.kind == H_PROCESS ? impl->process() : op.kind == H_PROCESSONE ? impl->processOne() : impl->processIf(pk); }
+			else r = op.kind == H_PROCESS ? impl->process() : op.kind == H_PROCESSONE ? impl->processOne() : impl->processIf(pk);
 			log << "}=" << r;
 			if(! failed) {
 				PFrame & fr = frames.back();
@@ -769,6 +771,29 @@ struct Interp
 		if(! failed && impl->emptyQ() != pending.empty()) fail("fault.enqueue.state", "C09", "after a failed enqueue emptyQueue() disagrees with the model");
 	}
 
+	// C09 / C08: an exception escaping a processing call discards only the events that call had already taken out of the queue
+	// (the model's batch), destroys them (the ledger and LeakSanitizer see it if not) and leaves emptiness reporting right
+	void execProcessWithFaults(const Op & op, int index) {
+		const size_t depth = frames.size();
+		int caught = 0;
+		{
+			FaultArm arm(plan, index);
+			try { execOp(op); }
+			catch(const Injected &) { caught = 1; }
+			catch(const std::bad_alloc &) { caught = 2; }
+			catch(...) { fail("fault.foreign", "C09", "an exception of a different type than the injected one reached the caller"); }
+		}
+		if(! caught) return;
+		++plan->fired;
+		plan->firedKind = faults().lastKind;
+		if(frames.size() > depth) { consumed += (long)frames[depth].batch.size(); frames.resize(depth); }
+		auto it = plan->at.find(index);
+		if(it != plan->at.end() && it->second > 1) plan->firedAtKGreater1OnNonEmpty = true;
+		log << "[fault]}";
+		if(! failed && ledger().isFlagged()) fail("ledger.flag", "C08,C09", ledger().message());
+		if(! failed && impl->emptyQ() != pending.empty()) fail("fault.process.state", "C09", "after an exception escaped a processing call emptyQueue() disagrees with the model");
+	}
+
 	// direct dispatch: the frame learns its single event when the first listener is called
 	void onCallDirectFix() {
 		if(! frames.empty() && frames.back().direct && frames.back().batch.empty() && pendingDirect) {
@@ -785,6 +810,7 @@ struct Interp
 			if(failed) break;
 			if(plan && op.kind == H_COPY) execCopyWithFaults(op, index);
 			else if(plan && op.kind == H_ENQ) execEnqueueWithFaults(op, index);
+			else if(plan && (op.kind == H_PROCESS || op.kind == H_PROCESSONE || op.kind == H_PROCESSIF)) execProcessWithFaults(op, index);
 			else execOp(op);
 			++index;
 		}
@@ -809,8 +835,9 @@ struct Interp
 	}
 };
 
-void deliver(int cb, const Summary & s) { if(g_h) { g_h->onCallDirectFix(); g_h->onCall(cb, s); } }
-bool deliverPred(const Summary & s) { return g_h ? g_h->onPred(s) : false; }
+// a listener / predicate may throw on entry (fault-injection builds): what it does afterwards runs with the injector paused
+void deliver(int cb, const Summary & s) { faults().point(1); FaultPause fp, fp2; if(g_h) { g_h->onCallDirectFix(); g_h->onCall(cb, s); } }
+bool deliverPred(const Summary & s) { faults().point(5); FaultPause fp, fp2; return g_h ? g_h->onPred(s) : false; }
 
 Grammar makeGrammar(const std::string &)
 {
